@@ -51,6 +51,18 @@ Theorem C09_alloc_result : forall c st size st' id off len,
 Proof. exact alloc_result. Qed.
 Print Assumptions C09_alloc_result.
 
+(* block sizing (JitAllocator_calculate_ideal_block_size + the area computation of JitAllocator_new_block): whatever the
+   pool's last block is, the block created for a request of `size` bytes has at least padding + request bytes, and its
+   area (granules) holds the padding granule plus the request's granules — so the span placed at `initial_area_start`
+   of a new block ends inside the block *)
+Theorem C09_new_block_fits : forall c p last size,
+  0 < c_gran c -> 0 <= p -> 0 < c_bsize c -> 1 <= size ->
+  let g := pool_gran c p in
+  (if c_pad c then size + g else size) <= ideal_block_size c p last size /\
+  (if c_pad c then 1 else 0) + (size + g - 1) / g <= (ideal_block_size c p last size + g - 1) / g.
+Proof. exact new_block_fits. Qed.
+Print Assumptions C09_new_block_fits.
+
 Example C09_alloc_result_hyps_sat :
   exists st', alloc cfg_f3 (init_state cfg_f3) 100 = (st', RAlloc Ok 0 128 128) /\ 0 <= 100 /\ 100 + c_gran cfg_f3 <= two64.
 Proof. exact alloc_example. Qed.
